@@ -305,7 +305,7 @@ def run_schedule(payload, rnd=None):
 
 class C20(Prop):
     id = 'C20'
-    quick_cases = 1000
+    quick_cases = 2500
     thorough_cases = 40000
     rule = ('the real AsyncRunner (threading / time of sismic.runner.runner replaced by cooperative shims with a yield '
             'point at every flag operation, hook, sleep, join, final test and execute_once) is run under random '
